@@ -34,7 +34,8 @@ type Points struct {
 
 	logPoints bool // emit a "point" event for every occurrence (enumeration engines)
 
-	freezing map[string]bool // a crash of this node is being taken: its goroutines stop at their next point
+	freezing map[string]bool          // a crash of this node is being taken: its goroutines stop at their next point
+	slow     map[string]time.Duration // "dir|point" -> forced delay
 
 	fsMu sync.Map // dir -> *sync.Mutex held while a snapshot is being published
 }
@@ -49,7 +50,7 @@ func newPoints(rc *Recorder, seed int64) *Points {
 		rc: rc, rng: rand.New(rand.NewSource(seed)),
 		counts: map[string]map[string]int{}, weights: map[string]float64{},
 		holds: map[string]chan struct{}{}, holdHit: map[string]chan struct{}{},
-		crashAt: map[string]*crashPlan{}, freezing: map[string]bool{},
+		crashAt: map[string]*crashPlan{}, freezing: map[string]bool{}, slow: map[string]time.Duration{},
 	}
 }
 
@@ -164,7 +165,10 @@ func (p *Points) point(dir, name string) {
 	}
 	var sleep time.Duration
 	var yield bool
-	if !crash && holdCh == nil && p.delayProb > 0 {
+	if d, ok := p.slow[k]; ok && !crash && holdCh == nil {
+		sleep = d
+	}
+	if !crash && holdCh == nil && sleep == 0 && p.delayProb > 0 {
 		pr := p.delayProb
 		if w, ok := p.weights[name]; ok {
 			pr *= w
@@ -276,4 +280,15 @@ func copyDir(src, dst string) error {
 		}
 		return out.Close()
 	})
+}
+
+// setSlow forces a delay at point in dir (0 = off).
+func (p *Points) setSlow(dir, point string, d time.Duration) {
+	p.mu.Lock()
+	defer p.mu.Unlock()
+	if d == 0 {
+		delete(p.slow, dir+"|"+point)
+	} else {
+		p.slow[dir+"|"+point] = d
+	}
 }
